@@ -159,6 +159,12 @@ class Tag:
                     pre = tuple(x for x in pr[:wi] if x != "*")
                     if pre:
                         base = ("place", s[1], tuple(pr[:wi]))
+                    else:
+                        # a match guard tests the slot through a shared reference to the binding (`&an`): &P followed by a deref is P
+                        derefs = len([x for x in pr[:wi] if x == "*"])
+                        while derefs > 1 and isinstance(base, tuple) and base[0] == "ref":
+                            base = strip_casts(base[2])
+                            derefs -= 1
                     out.append((slot_key(base, b), "test of slot.weight at line %d" % t["line"]))
                 if s[0] == "call" and norm_path(s[1]["path"]) in ("core::option::Option::filter", "core::option::Option::is_some_and") and len(s[2]) >= 2:
                     # slots.get(i).filter(|x| x.weight.is_some()): the liveness test sits in the closure
@@ -235,6 +241,10 @@ def _tree(e):
         return _tree(e[2][1])
     if e[0] == "call":
         return ("call", e[1]["path"], e[3])
+    if e[0] == "place" and isinstance(e[1], tuple) and e[1][0] == "ref" and e[2] and e[2][0] == "*":
+        # *(&P) is P (a match guard looks at its binding through a shared reference)
+        rest = tuple(e[2][1:])
+        return _tree(("place", e[1][2], rest)) if rest else _tree(e[1][2])
     if e[0] == "place":
         return ("place", _tree(e[1]), e[2])
     return tuple(_tree(x) if isinstance(x, (tuple, list)) else x for x in e)
